@@ -489,6 +489,9 @@ impl<'a> Exec<'a> {
         if cdir.is_dir() {
             let _ = std::fs::write(cdir.join(format!("{}.999.index", sut::PREFIX)), b"not a blob");
             let _ = std::fs::write(cdir.join("notes.2023.txt"), b"not a blob");
+            // ... nor does a directory, whatever its name ends in
+            let _ = std::fs::create_dir_all(cdir.join("saved-by-operator.blob"));
+            let _ = std::fs::write(cdir.join("saved-by-operator.blob").join("readme"), b"not a blob");
             self.labels.insert("foreign_files_in_corrupted_dir");
         }
         self.open(lazy).await?;
